@@ -185,7 +185,13 @@ C13(built) ==
         ELSE IF tag.mode = "items" /\ parsed.k = "parsed" /\ o.k = "ok" /\ o.vw.k = "ok" /\ o.vw.walk.n > 50
              THEN [f |-> {}, nt |-> FALSE]     \* the logged walk is abbreviated: not checked item by item
         ELSE IF ~applicable THEN [f |-> {<< "BIND", "rebuild-session-without-applicable-parse", tag.mode >>}, nt |-> FALSE]
-        ELSE IF sess.ops # ExpectedRebuildOps(tag.mode) THEN [f |-> {<< "BIND", "rebuild-ops-are-not-the-observed-parts", tag.mode >>}, nt |-> FALSE]
+        ELSE IF sess.ops # ExpectedRebuildOps(tag.mode)
+             THEN LET exp == ExpectedRebuildOps(tag.mode)
+                  IN  (* one of the calls failed, so the later ones were never made: the calls that were made
+                         must still be the observed parts, and the rebuild did not reproduce the header *)
+                      IF built.k = "err" /\ Len(sess.ops) < Len(exp) /\ sess.ops = SubSeq(exp, 1, Len(sess.ops))
+                      THEN [f |-> {<< "C13", "a-call-of-the-rebuild-failed", tag.mode >>}, nt |-> TRUE]
+                      ELSE [f |-> {<< "BIND", "rebuild-ops-are-not-the-observed-parts", tag.mode >>}, nt |-> FALSE]
         ELSE [f |-> IF built.k = "ok" /\ built.v = o.raw THEN {} ELSE {<< "C13", "rebuilt-header-differs", tag.mode >>}, nt |-> TRUE]
 
 CapWalk(e) == IF Len(e) > 50 THEN SubSeq(e, 1, 40) \o SubSeq(e, Len(e) - 4, Len(e)) ELSE e
